@@ -304,7 +304,8 @@ def representation(run):
     run.absorb(E)
     if not run.expect_paths(res, "C15/representation", inst):
         return
-    rp = lambda m, s: replay_repr(m, s)
+    rp = lambda m, s: replay_repr(m, s, ("awq",))
+    rp_back = lambda m, s: replay_repr(m, s, ("conversion",))
     rp_conv = lambda m, s: replay_conv(m, s)
     for pi, r in enumerate(res):
         if r.outcome != "return":
@@ -335,7 +336,7 @@ def representation(run):
         run.add(f"C15/awq-dequantizes-like-the-standard-representation/path{pi}", r.hyps + inb + facts, got == want, "property", inst, replay=rp, timeout=60)
         # conversion back
         if back[0] == "raises":
-            run.add(f"C15/conversion-back/does-not-raise/path{pi}:{back[1].tname}", r.hyps, z3.BoolVal(False), "property", inst, replay=rp)
+            run.add(f"C15/conversion-back/does-not-raise/path{pi}:{back[1].tname}", r.hyps, z3.BoolVal(False), "property", inst, replay=rp_back)
             continue
         sv = r.ps.get("awq_saved")
         if sv is not None and sv[0] == "value":
@@ -350,14 +351,15 @@ def representation(run):
         run.add(f"C15/converting-back-leaves-the-awq-tensor-untouched/path{pi}", r.hyps, z3.BoolVal(not cw), "property", inst, {"writes": cw[:4]}, replay=rp_conv)
         qb = back[1]
         for nme, f in inv.inv_qbits(qb):
-            run.add(f"C15/conversion-back/inv:{nme}/path{pi}", r.hyps, f, "property", inst, replay=rp)
+            defective = nme in ("payload-shape==grouped-shape", "scale-has-keepdim-shape-over-payload", "zeropoint-has-keepdim-shape-over-payload", "zeropoint-int8")
+            run.add(f"C15/conversion-back/inv:{nme}/path{pi}", r.hyps, f, "property", inst, replay=rp_back if defective else None)
         z2 = qb.fields["_zeropoint"]
         jd, jn = idx_vars("z", z2.shape)
         run.add(f"C15/conversion-back/zero-points-restored/path{pi}", r.hyps + jn,
                 z3.And(z3.BoolVal(z2.dtype == "int8"), lib.shape_eq(z2.shape, zp.shape), (z2.elem(jd) == zp.elem(jd)) if z2.dtype == "int8" and len(z2.shape) == 2 else z3.BoolVal(False)),
                 "property", inst, replay=rp)
         if back_deq is not None and back_deq[0] == "raises":
-            run.add(f"C15/conversion-back/dequantize-does-not-raise/path{pi}:{back_deq[1].tname}", r.hyps, z3.BoolVal(False), "property", inst, replay=rp)
+            run.add(f"C15/conversion-back/dequantize-does-not-raise/path{pi}:{back_deq[1].tname}", r.hyps, z3.BoolVal(False), "property", inst, replay=rp_back)
 
 
 def build(run):
@@ -478,7 +480,7 @@ def replay_save(model, seed):
     return None
 
 
-def replay_repr(model, seed):
+def replay_repr(model, seed, clauses=("awq", "conversion")):
     import torch
     from optimum.quanto import MaxOptimizer, qint4
     from optimum.quanto.tensor.qbits import QBitsTensor
@@ -496,8 +498,12 @@ def replay_repr(model, seed):
     exec(compile(src, AWQQ, "exec"), ns)
     A = ns["AWQBitsTensor"]
     a = A(qint4, 0, 128, q.size(), q.stride(), q._data.unpack(), q._scale, q._zeropoint)
-    if not torch.allclose(a.dequantize().float(), q.dequantize().float(), atol=2e-2):
+    if "awq" in clauses and (tuple(a.dequantize().shape) != tuple(q.shape) or not torch.allclose(a.dequantize().float(), q.dequantize().float(), atol=2e-2)):
         return {"what": "AWQ representation dequantizes differently"}
+    if "awq" in clauses and not (torch.equal(q._scale, sc) and torch.equal(q._zeropoint, zp)):
+        return {"what": "constructing the AWQ tensor modified the scales / zero-points it was given"}
+    if "conversion" not in clauses:
+        return None
     try:
         b = a.qbits_tensor()
         d = b.dequantize()
